@@ -162,6 +162,35 @@ def run(res: Results, idx: Index, tier: str) -> None:
             continue
         txt = ast.unparse(h.node)
         rets = [r for r in walk_no_nested(h.node) if isinstance(r, ast.Return) and r.value is not None]
+        if hname == "_capture_const":
+            # every definition that reaches the returned key must fingerprint the *content*: Python's own numeric hash
+            # is not injective on small values (hash(-1) == hash(-2), hash(0.0) == hash(-0.0), hash(1) == hash(1.0) ==
+            # hash(True)), so `hash(value)` / `hash(arr.item())` merges call sites whose static arguments differ
+            hdu = defuse(h.node)
+            params = {a.arg for a in h.node.args.args}
+            alias = set(params)
+            for nm, ds in hdu.defs.items():
+                for d in ds:
+                    if d.value is not None and isinstance(d.value, ast.Call) and (call_name(d.value) or "").split(".")[-1] in ("asarray", "array", "asanyarray") and d.value.args and names_in(d.value.args[0]) & params:
+                        alias.add(nm)
+            weak = []
+            todo = [r.value for r in rets]
+            seen_n: Set[str] = set()
+            while todo:
+                e = todo.pop()
+                for x in ast.walk(e):
+                    if isinstance(x, ast.Call) and (call_name(x) or "") == "hash" and x.args:
+                        a0 = x.args[0]
+                        if isinstance(a0, ast.Name) and a0.id in alias:
+                            weak.append(x)
+                        elif isinstance(a0, ast.Call) and isinstance(a0.func, ast.Attribute) and a0.func.attr == "item" and names_in(a0) & alias:
+                            weak.append(x)
+                    if isinstance(x, ast.Name) and x.id not in seen_n and x.id not in alias:
+                        seen_n.add(x.id)
+                        todo.extend(d.value for d in hdu.defs.get(x.id, []) if d.value is not None)
+            if weak:
+                res.violation("R-C07a", f"{PS}:{weak[0].lineno}", key + "::python-hash", f"`{src(weak[0], 40)}` keys a static argument by Python's numeric hash, which is not injective (hash(-1) == hash(-2), hash(0.0) == hash(-0.0), hash(1) == hash(1.0)): two call sites whose static arguments differ only that way share one function body with the first value baked in", h.qualname)
+                continue
         if rets and all(any(nd in ast.unparse(r.value) or nd in txt for nd in needles) for r in rets) and (hname != "_capture_const" or any(nd in txt for nd in ("tobytes", "digest"))):
             res.ok("R-C07a", f"{PS}:{h.node.lineno}", key, f"fingerprint covers {', '.join(n for n in needles if n in txt)}", h.qualname)
         else:
